@@ -135,7 +135,7 @@ theorem sumOps_contract (ip : Nat → List Nat) (sub : Nat → Bool) (g : Graph)
     (hip : ∀ i, (ip i).Nodup) (hsub : ∀ i, ip i ≠ [] → sub i = false) :
     Contract (sumOps ip sub) g := by
   refine ⟨hip, hsub, ?_⟩
-  intro i op _ taken ins full _ hnd hplace _ hfill
+  intro i op _ taken ins full _ hnd hplace _ _ hfill
   simp only [sumOps]
   have := sumO_fill hfill hnd (by
     intro t ht _
